@@ -2,6 +2,7 @@ package rules
 
 import (
 	"fmt"
+	"go/ast"
 	"go/constant"
 	"go/token"
 	"go/types"
@@ -80,6 +81,65 @@ func checkELFArch(e *Env, p *load.Program) {
 			default:
 				r.OK("E4.elfarch", key, p.Pos(ret.Pos()), fmt.Sprintf("ELF machine %d selects arch.%s / %q", mach, info.Name(), goarch))
 			}
+		}
+	}
+	// the same mapping spelled as data: a map literal keyed by elf.Machine whose rows name an arch.Info variable (and a GOARCH)
+	if pk := p.Pkgs[load.PkgProfiler]; pk != nil {
+		for _, file := range pk.Syntax {
+			ast.Inspect(file, func(nd ast.Node) bool {
+				cl, ok := nd.(*ast.CompositeLit)
+				if !ok {
+					return true
+				}
+				mt, ok := pk.TypesInfo.TypeOf(cl).Underlying().(*types.Map)
+				if !ok || !isNamed(mt.Key(), "debug/elf", "Machine") {
+					return true
+				}
+				for _, el := range cl.Elts {
+					kv, ok := el.(*ast.KeyValueExpr)
+					if !ok {
+						continue
+					}
+					tv := pk.TypesInfo.Types[kv.Key]
+					if tv.Value == nil {
+						continue
+					}
+					mach, _ := constant.Int64Val(constant.ToInt(tv.Value))
+					infoName, goarch, hasArch := "", "", false
+					ast.Inspect(kv.Value, func(x ast.Node) bool {
+						switch y := x.(type) {
+						case *ast.SelectorExpr:
+							if v, ok := pk.TypesInfo.Uses[y.Sel].(*types.Var); ok && v.Pkg() != nil && v.Pkg().Path() == load.PkgArch {
+								if pt, ok := v.Type().(*types.Pointer); ok && isNamed(pt.Elem(), load.PkgArch, "Info") {
+									infoName = v.Name()
+								}
+							}
+						case *ast.BasicLit:
+							if c := pk.TypesInfo.Types[y].Value; c != nil && c.Kind() == constant.String {
+								goarch, hasArch = constant.StringVal(c), true
+							}
+						}
+						return true
+					})
+					if infoName == "" {
+						continue
+					}
+					n++
+					key := "table/" + infoName
+					want, known := elfMachineInfo[mach]
+					switch {
+					case !known:
+						r.Unknown("E4.elfarch", key, p.Pos(kv.Pos()), fmt.Sprintf("ELF machine %d selects arch.%s; the machine is not in the checker's table", mach, infoName))
+					case want[0] != infoName:
+						r.Bad("E4.elfarch", key, p.Pos(kv.Pos()), fmt.Sprintf("binaries of ELF machine %d (%s) are profiled with the table arch.%s: numbers are resolved to another architecture's names, and allow-names are checked against the wrong table", mach, want[1], infoName))
+					case hasArch && !strings.EqualFold(goarch, want[1]):
+						r.Bad("E4.elfarch", key, p.Pos(kv.Pos()), fmt.Sprintf("binaries of ELF machine %d are labelled GOARCH %q, want %q", mach, goarch, want[1]))
+					default:
+						r.OK("E4.elfarch", key, p.Pos(kv.Pos()), fmt.Sprintf("ELF machine %d selects arch.%s / %q", mach, infoName, goarch))
+					}
+				}
+				return true
+			})
 		}
 	}
 	r.Floor("E4.elfarch(machine-selected tables)", n, 3)
